@@ -332,6 +332,9 @@ def LN(
     https://support.office.com/en-us/article/
         ln-function-81fe1ed7-dac9-4acd-ba1d-07a142c6118f
     """
+    if number <= 0:
+        raise xlerrors.NumExcelError(f'number {number} must be positive')
+
     return math.log(number)
 
 
@@ -346,6 +349,12 @@ def LOG(
     https://support.office.com/en-us/article/
         log-function-4e82f196-1ca9-4747-8fb0-6c4a3abb3280
     """
+    if float(number) <= 0 or float(base) <= 0:
+        raise xlerrors.NumExcelError(
+            f'number {number} and base {base} must be positive')
+    if float(base) == 1:
+        raise xlerrors.DivZeroExcelError()
+
     return math.log(float(number), float(base))
 
 
@@ -359,6 +368,9 @@ def LOG10(
     https://support.office.com/en-us/article/
         log10-function-c75b881b-49dd-44fb-b6f4-37e3486a0211
     """
+    if float(number) <= 0:
+        raise xlerrors.NumExcelError(f'number {number} must be positive')
+
     return np.log10(float(number))
 
 
